@@ -7,7 +7,7 @@
    Gen/LisIdx.v, so each function keeps its own anchors.  Definitions only.
 
    slices.BinarySearchFunc is standard library, not part of the repo.  The skeleton therefore takes
-   the standard search as a PARAMETER [std]; it is instantiated twice:
+   the standard search as an argument [std]; it is instantiated twice:
      - [lis_func]: with [std_binsearch], a hand copy of the go1.23 loop (slices/sort.go).  This is
        the extracted model the correspondence runs replay.
      - [lis_func_std impl]: with ANY function [impl] on the list of comparison results
